@@ -19,9 +19,12 @@ abbrev GTok := Cel.Grammar.Tok
 
 def isIdentStart (c : Char) : Bool := ('a' ≤ c && c ≤ 'z') || ('A' ≤ c && c ≤ 'Z') || c = '_'
 
+/-- a word where an operand may start: IDENT, with `null` retyped by lark's "unless" callback and
+`true`/`false` by `CELParser.ambiguous_literals`; `in` stays an identifier there (IN is not
+acceptable in those parser states) -/
 def wordTok (w : Str) : GTok :=
   let s := String.ofList w
-  if s = "in" then ⟨.IN, s⟩ else if s = "null" then ⟨.NULL_LIT, s⟩
+  if s = "null" then ⟨.NULL_LIT, s⟩
   else if s = "true" || s = "false" then ⟨.BOOL_LIT, s⟩ else ⟨.IDENT, s⟩
 
 /-- single-quoted branch of STRING_LIT: escape alternatives then `.` -/
@@ -54,28 +57,36 @@ def lexGoQ (qc : Char) : Str → Nat → Option (Str × Str)
       else dot
 
 /-- text → tokens, for the token kinds the table entries use. `skip`: characters already consumed.
-`fuel`-free: structural on the text. -/
-def lexCelGo : Str → Nat → Option (List GTok)
-  | [], _ => some []
-  | _ :: tl, skip + 1 => lexCelGo tl skip
-  | c :: tl, 0 =>
-    if c = ' ' then lexCelGo tl 0
+`after` = the previous token ended an operand (IDENT, literal, `)`, `]`, `}`): lark's contextual
+lexer then does not offer IDENT; the only word-like terminal is the string `in`, which matches as a
+PREFIX of the text (`x inall()` lexes as `x in all()`); any other word is a lexical error. -/
+def lexCelGo : Str → Nat → Bool → Option (List GTok)
+  | [], _, _ => some []
+  | _ :: tl, skip + 1, after => lexCelGo tl skip after
+  | c :: tl, 0, after =>
+    if c = ' ' then lexCelGo tl 0 after
     else if c = '"' || c = '\'' then
+      if after then none else
       match lexGoQ c tl 0 with
-      | some (body, _) => (lexCelGo tl (body.length + 1)).map (⟨.STRING_LIT, String.ofList (c :: (body ++ [c]))⟩ :: ·)
+      | some (body, _) => (lexCelGo tl (body.length + 1) true).map (⟨.STRING_LIT, String.ofList (c :: (body ++ [c]))⟩ :: ·)
       | none => none
     else if isIdentStart c then
-      let w := c :: tl.takeWhile isWordAscii
-      (lexCelGo tl (w.length - 1)).map (wordTok w :: ·)
+      if after then
+        (if c = 'i' && tl.head? = some 'n' then (lexCelGo tl 1 false).map (Cel.Grammar.Tok.a .IN :: ·) else none)
+      else
+        let w := c :: tl.takeWhile isWordAscii
+        (lexCelGo tl (w.length - 1) true).map (wordTok w :: ·)
     else if isDigit c then
+      if after then none else
       let w := c :: tl.takeWhile isDigit
       -- a digit run directly followed by `.`, a letter or `_` would be a float / uint / error: not modelled
       match tl.dropWhile isDigit with
-      | d :: _ => if d = '.' || isWordAscii d then none else (lexCelGo tl (w.length - 1)).map (⟨.INT_LIT, String.ofList w⟩ :: ·)
-      | [] => (lexCelGo tl (w.length - 1)).map (⟨.INT_LIT, String.ofList w⟩ :: ·)
+      | d :: _ => if d = '.' || isWordAscii d then none else (lexCelGo tl (w.length - 1) true).map (⟨.INT_LIT, String.ofList w⟩ :: ·)
+      | [] => (lexCelGo tl (w.length - 1) true).map (⟨.INT_LIT, String.ofList w⟩ :: ·)
     else
-      let two (k : TK) := (lexCelGo tl 1).map (Cel.Grammar.Tok.a k :: ·)
-      let one (k : TK) := (lexCelGo tl 0).map (Cel.Grammar.Tok.a k :: ·)
+      let two (k : TK) := (lexCelGo tl 1 false).map (Cel.Grammar.Tok.a k :: ·)
+      let one (k : TK) := (lexCelGo tl 0 false).map (Cel.Grammar.Tok.a k :: ·)
+      let close (k : TK) := (lexCelGo tl 0 true).map (Cel.Grammar.Tok.a k :: ·)
       if c = '|' then (if tl.head? = some '|' then two .OROR else none)
       else if c = '&' then (if tl.head? = some '&' then two .ANDAND else none)
       else if c = '=' then (if tl.head? = some '=' then two .EQ else none)
@@ -83,15 +94,15 @@ def lexCelGo : Str → Nat → Option (List GTok)
       else if c = '<' then (if tl.head? = some '=' then two .LE else one .LT)
       else if c = '>' then (if tl.head? = some '=' then two .GE else one .GT)
       else if c = '.' then (if (tl.head?.map isDigit).getD false then none else one .DOT)
-      else if c = '(' then one .LPAR else if c = ')' then one .RPAR
-      else if c = '[' then one .LSQB else if c = ']' then one .RSQB
-      else if c = '{' then one .LBRACE else if c = '}' then one .RBRACE
+      else if c = '(' then one .LPAR else if c = ')' then close .RPAR
+      else if c = '[' then one .LSQB else if c = ']' then close .RSQB
+      else if c = '{' then one .LBRACE else if c = '}' then close .RBRACE
       else if c = ',' then one .COMMA else if c = '?' then one .QMARK else if c = ':' then one .COLON
       else if c = '+' then one .PLUS else if c = '-' then one .MINUS else if c = '*' then one .STAR
       else if c = '/' then one .SLASH else if c = '%' then one .PERCENT
       else none
 
-def lexCel (s : Str) : Option (List GTok) := lexCelGo s 0
+def lexCel (s : Str) : Option (List GTok) := lexCelGo s 0 false
 
 def isCel (s : Str) : Bool := ((lexCel s).bind Cel.Grammar.parse).isSome
 
